@@ -94,7 +94,8 @@ func runIdle(rec *beaconrec.Recorder, cfg idleCfg, name string, rng *rand.Rand) 
 		}
 	}
 	rec.Sigs = sigLookup(c.Keys)
-	rec.CompensateSyncCache = true
+	rec.CompensateSyncCache = compensateSyncCache
+	c.CompensateSyncCache = compensateSyncCache
 	c.Runner = rec
 	if err := rec.Init(spec, c.State, map[string]interface{}{"scenario": name}); err != nil {
 		return err
